@@ -18,10 +18,50 @@ NOT_APPLICABLE = {
     # filled in below as long as a property has no registered check yet
 }
 CHECKS = {
+    'C01': {
+        'text': 'every operator chain of <=3 operators over distinct primes with one decoration (-,+,%) and one parenthesis pair (exhaustive in the thorough tier), Hypothesis typed expression trees over literals and references fed by workbook constants / overrides / blanks, and a numeric-literal grid, each evaluated through Parser+Executor and compared with an independent precedence-aware evaluator; two open findings (misgrouped & / comparison, %) are attributed by structural trigger',
+        'note': 'trusted: vf/ref/formula.py (own Pratt parser + evaluator written from the statement), IEEE doubles, tolerance 1e-12; text/bool/blank text forms outside the asserted domain',
+        'technique': 'exhaustive small-bound enumeration + Hypothesis typed ASTs vs reference evaluator (differential)',
+    },
     'C10': {
         'text': 'exhaustive grid of ~25k ordered operand pairs (numbers incl. fractions/signs, texts incl. numeric-looking, dates/date-times, blank) x 6 operators x both orders through overrides, plus samples as workbook constants and literals and Hypothesis-drawn doubles/texts; exact rational oracle for numbers, the algebraic laws for every same-kind pair',
         'note': 'trusted: fractions.Fraction, datetime, openpyxl writer; text collation is only checked against the laws',
         'technique': 'exhaustive grid + Hypothesis-drawn pairs against exact rational comparison and algebraic laws',
+    },
+    'C11': {
+        'text': 'Hypothesis-generated cell blocks (all content kinds) and argument lists (areas, whole columns, other sheets, cells, literals, re-split areas, embedded calls) for SUM/AVERAGE/MIN/MAX/COUNT/COUNTBLANK/AND/OR, compared with an independent fold over the generator\'s content map',
+        'note': 'trusted: the generator\'s content map and fold (vf/props/c11.py); dates only under COUNT/COUNTBLANK, AND/OR without text/blank, empty AVERAGE/MIN/MAX not asserted',
+        'technique': 'Hypothesis structured generation vs independent fold (reference model) + metamorphic re-splitting',
+    },
+    'C12': {
+        'text': 'Hypothesis-generated criteria columns / target columns / criterion forms (plain, operator-prefixed, &-assembled, wildcard) for SUMIF/SUMIFS/COUNTIFS/AVERAGEIFS incl. misaligned ranges, compared with a select-then-fold oracle with its own wildcard matcher; three open findings in the criterion parser are attributed by criterion form',
+        'note': 'trusted: vf/props/c12.py oracle; blanks under numeric criteria, numbers under patterns, date criteria are outside the asserted domain',
+        'technique': 'Hypothesis structured generation vs select-then-fold reference model',
+    },
+    'C13': {
+        'text': 'Hypothesis nests of IF/IFS/IFERROR up to depth 3, bare and embedded in operators/functions, evaluated under every truth assignment (true/zero/blank/5) of their condition cells through overrides and compared with a lazy reference evaluator (untaken failing branches must not surface)',
+        'note': 'trusted: vf/ref/formula.py lazy semantics; how error values travel through other operators is not asserted',
+        'technique': 'Hypothesis ASTs x exhaustive truth assignments vs lazy reference evaluator',
+    },
+    'C14': {
+        'text': 'Hypothesis tables (ascending/unsorted/duplicate/text/blank keys, width 1-4) with VLOOKUP exact/approximate/omitted, MATCH 0/1/omitted, XMATCH from start/end, INDEX over every (r,c) around the area, INDEX(MATCH), COLUMN; ADDRESS exhaustively over all 16384 columns x sampled rows; oracle = independent linear search / direct indexing / bijective base-26',
+        'note': 'trusted: vf/props/c14.py oracles; approximate matching only on ascending numeric keys; 0-index INDEX and binary XMATCH modes not asserted',
+        'technique': 'Hypothesis + boundary construction vs reference search; exhaustive ADDRESS sweep',
+    },
+    'C15': {
+        'text': 'grids through overrides: DATE(y,m,d) over 6 years x months -30..40 x days -800..800 with YEAR/MONTH/DAY inverses, EDATE/EOMONTH over every day of 2019-2024 x offsets -60..60, DATEDIF D/M/Y/YM targeted at anniversaries, NETWORKDAYS both orders with seeded holiday sets, TODAY bracketed by two clock reads; oracle = datetime/calendar arithmetic (quick tier strides the grids, thorough enumerates them)',
+        'note': 'trusted: python datetime/calendar; years 1904..9999; DATEDIF with start > end not asserted',
+        'technique': 'exhaustive grid enumeration vs datetime/calendar reference',
+    },
+    'C16': {
+        'text': 'decimal grid sign x 9 integer parts x all four-digit fractions x digits -3..6 x ROUND/ROUNDUP/ROUNDDOWN (+1-argument forms, x%) through overrides (quick: every tie / every fraction ending in 0 or 5 / stride-37 background), samples as literals and constants, Hypothesis decimals up to 15 significant digits; oracle = decimal.quantize',
+        'note': 'trusted: python decimal; operands are the doubles nearest to <=15-digit decimal texts',
+        'technique': 'exhaustive decimal grid + Hypothesis decimals vs decimal.Decimal.quantize',
+    },
+    'C17': {
+        'text': 'Hypothesis texts over a mixed-case alphabet with wildcard and regex-special characters (as constants, literals, overrides) x positions/counts around the length for LEFT/RIGHT/MID, the rebuild identity, & / CONCATENATE, SEARCH (plain/wildcard/escaped/regex-special needles, start positions), VALUE; oracle = slicing, own wildcard prefix matcher, Decimal',
+        'note': 'trusted: vf/props/c17.py oracles; SEARCH start asserted for 1..len, text form of numbers only for ints / short decimals',
+        'technique': 'Hypothesis structured generation vs substring-algebra reference + round-trip identity',
     },
 }
 ALL = ['C%02d' % i for i in range(1, 21)]
